@@ -1,5 +1,6 @@
 import PromProofs.QuantileList
 import PromProofs.QuantileFraction
+import PromProofs.QuantileSort
 /-
   C32 — Histogram query functions agree with the histograms they describe.
 
@@ -58,13 +59,44 @@ theorem bucketQuantile_mono_partial (almost : XR → XR → Bool) (cs : List (Bu
     have hobs' := Rat.le_of_lt hobs
     exact valQ_mono N (Rat.mul_nonneg h0 hobs') (Rat.mul_le_mul_of_nonneg_right h12 hobs') S1 S2
 
-/-- The whole-pipeline statement (sort + coalesce included), not yet proved in this form. -/
+def noTol : XR → XR → Bool := fun _ _ => false
+
+/-- The whole-pipeline statement (sort + coalesce included) as first written.  It is FALSE for the empty
+    bucket list only (`bucketQuantile_mono_full_empty_witness`: Go indexes `buckets[len(buckets)-1]` and
+    panics; both callers guard `len(mb.buckets) > 0`); with `buckets ≠ []` it is `bucketQuantile_mono`. -/
 def bucketQuantile_mono_full : Prop :=
   ∀ (almost : XR → XR → Bool) (buckets : List (Bucket XR)),
     NonnegC buckets → (∀ b ∈ buckets, b.ub = .pinf ∨ ∃ x, b.ub = .fin x) →
     ∀ q1 q2 : Rat, 0 ≤ q1 → q1 ≤ q2 → q2 ≤ 1 →
       ∃ r1 r2, bucketQuantileWith almost (.fin q1) buckets = .ok r1 ∧ bucketQuantileWith almost (.fin q2) buckets = .ok r2 ∧
         XR.leOrNaN r1.quantile r2.quantile
+
+/-- `BucketQuantile` with the sort and `coalesceBuckets` INCLUDED: for EVERY non-empty list of classic
+    buckets with finite counts ≥ 0 (in any order, with duplicate bounds, monotone or not) and bounds that are
+    numbers or +Inf, the call succeeds for all quantiles in [0,1] and the result never decreases with the
+    quantile.  No shape hypothesis is left: `sortCoalesce_spec` proves that the transcribed sort + coalesce
+    establish `UbShape`. -/
+theorem bucketQuantile_mono (almost : XR → XR → Bool) (buckets : List (Bucket XR)) (hne : buckets ≠ [])
+    (C : NonnegC buckets) (hub : ∀ b ∈ buckets, b.ub = .pinf ∨ ∃ x, b.ub = .fin x)
+    (q1 q2 : Rat) (h0 : 0 ≤ q1) (h12 : q1 ≤ q2) (h1 : q2 ≤ 1) :
+    ∃ r1 r2, bucketQuantileWith almost (.fin q1) buckets = .ok r1 ∧ bucketQuantileWith almost (.fin q2) buckets = .ok r2 ∧
+      XR.leOrNaN r1.quantile r2.quantile := by
+  obtain ⟨_, _, _, C', U⟩ := sortCoalesce_spec buckets hub C
+  have h1' : q1 ≤ 1 := by grind
+  have h0' : 0 ≤ q2 := by grind
+  rcases bucketQuantileWith_decomp almost buckets hne with hn | ht
+  · exact ⟨_, _, hn q1 h0 h1', hn q2 h0' h1, Or.inl rfl⟩
+  · exact ⟨_, _, ht q1 h0 h1', ht q2 h0' h1, bucketQuantile_mono_partial almost _ U C' q1 q2 h0 h12⟩
+
+/-- the literal `bucketQuantile_mono_full` fails exactly because of the empty list (Go: index out of range) -/
+theorem bucketQuantile_mono_full_empty_witness : ¬ bucketQuantile_mono_full := by
+  intro h
+  obtain ⟨r1, _, e, _⟩ := h noTol [] (by intro b hb; simp at hb) (by intro b hb; simp at hb) 0 0
+    (by decide) (by decide) (by decide)
+  have : (match bucketQuantileWith noTol (.fin 0) ([] : List (Bucket XR)) with | .error _ => true | .ok _ => false) = true := by
+    decide +kernel
+  rw [e] at this
+  cases this
 
 /-- The result lies within the bounds of the bucket holding the rank: either NaN for every `q`
     (fewer than 2 buckets / no observations), or for each `q ≥ 0` there is the bucket `k` selected by
@@ -109,7 +141,55 @@ example : UbShape exBuckets ∧ NonnegC exBuckets := by
     · exact ⟨3, rfl, by decide⟩
     · exact ⟨9, rfl, by decide⟩
 
-def noTol : XR → XR → Bool := fun _ _ => false
+def shuffled : List (Bucket XR) := [⟨.fin 2, .fin 3⟩, ⟨.pinf, .fin 9⟩, ⟨.fin 1, .fin 5⟩, ⟨.fin 2, .fin 4⟩]
+
+/-- `bucketQuantile_in_bucket_partial` with sort and `coalesceBuckets` INCLUDED.  `cs = sortCoalesce buckets` is
+    the list the function works on: its bounds are strictly increasing (duplicates merged) and are exactly the
+    bounds of the input, its counts are finite and ≥ 0.  Then either the result is NaN for every quantile in
+    [0,1] (largest bound not +Inf, fewer than 2 distinct bounds, or no observations) or for every such quantile
+    the result is NaN (0/0 case only, F-C32-2) or a number within the bounds of the bucket `k` of `cs` selected
+    by the rank. -/
+theorem bucketQuantile_in_bucket (almost : XR → XR → Bool) (buckets : List (Bucket XR)) (hne : buckets ≠ [])
+    (C : NonnegC buckets) (hub : ∀ b ∈ buckets, b.ub = .pinf ∨ ∃ x, b.ub = .fin x) :
+    (StrictUb (sortCoalesce buckets) ∧
+      (∀ x : XR, (∃ c ∈ sortCoalesce buckets, c.ub = x) ↔ (∃ b ∈ buckets, b.ub = x)) ∧
+      NonnegC (sortCoalesce buckets)) ∧
+    ((∀ q : Rat, 0 ≤ q → q ≤ 1 → ∃ r, bucketQuantileWith almost (.fin q) buckets = .ok r ∧ r.quantile = .nan) ∨
+     ∀ q : Rat, 0 ≤ q → q ≤ 1 → ∃ r k, bucketQuantileWith almost (.fin q) buckets = .ok r ∧
+      Sel (sortCoalesce buckets).length (cOf almost (sortCoalesce buckets))
+        (q * cOf almost (sortCoalesce buckets) ((sortCoalesce buckets).length - 1)) k ∧
+      (r.quantile = .nan ∨
+        ∃ v, r.quantile = .fin v ∧ loB (sortCoalesce buckets).length (uOf (sortCoalesce buckets)) k ≤ v ∧
+          v ≤ hiB (sortCoalesce buckets).length (uOf (sortCoalesce buckets)) k)) := by
+  obtain ⟨S, _, M, C', U⟩ := sortCoalesce_spec buckets hub C
+  refine ⟨⟨S, M, C'⟩, ?_⟩
+  rcases bucketQuantileWith_decomp almost buckets hne with hn | ht
+  · left; intro q h0 h1; exact ⟨_, hn q h0 h1, rfl⟩
+  · rcases bucketQuantile_in_bucket_partial almost _ U C' with hnan | hq
+    · left; intro q h0 h1; exact ⟨_, ht q h0 h1, hnan q⟩
+    · right; intro q h0 h1
+      obtain ⟨k, hS, hv⟩ := hq q h0
+      exact ⟨_, k, ht q h0 h1, hS, hv⟩
+
+/-- a shuffled input with a duplicate bound and non-monotonic counts satisfies the hypotheses -/
+example : shuffled ≠ [] ∧ NonnegC shuffled ∧ (∀ b ∈ shuffled, b.ub = .pinf ∨ ∃ x, b.ub = .fin x) ∧
+    (sortCoalesce shuffled).map (fun b => (b.ub, b.count)) = [(.fin 1, .fin 5), (.fin 2, .fin 7), (.pinf, .fin 9)] := by
+  refine ⟨by simp [shuffled], ?_, ?_, by decide +kernel⟩
+  · intro b hb
+    simp [shuffled] at hb
+    rcases hb with rfl | rfl | rfl | rfl
+    · exact ⟨3, rfl, by decide⟩
+    · exact ⟨9, rfl, by decide⟩
+    · exact ⟨5, rfl, by decide⟩
+    · exact ⟨4, rfl, by decide⟩
+  · intro b hb
+    simp [shuffled] at hb
+    rcases hb with rfl | rfl | rfl | rfl
+    · exact Or.inr ⟨2, rfl⟩
+    · exact Or.inl rfl
+    · exact Or.inr ⟨1, rfl⟩
+    · exact Or.inr ⟨2, rfl⟩
+
 def emptyFirst : List (Bucket XR) := [⟨.fin 1, .fin 0⟩, ⟨.fin 2, .fin 5⟩, ⟨.pinf, .fin 5⟩]
 def negCounts : List (Bucket XR) := [⟨.fin 1, .fin (-5)⟩, ⟨.fin 2, .fin (-1)⟩, ⟨.fin 3, .fin (-1)⟩, ⟨.pinf, .fin (-1)⟩]
 
